@@ -263,6 +263,7 @@ func zzRunOnce(t *testing.T, r *simcore.Run) {
 					innerStack = zzStack()
 				}
 			}()
+			zzSawFwdShutdown.Store(false)
 			s := &zzSim{r: r, t: bt, midCutConn: -1}
 			s.run()
 		})
@@ -1218,8 +1219,17 @@ func (s *zzSim) faultArmMidCut(conn int) {
 		c.epoch++
 		s.midCutConn = conn
 		zl := s.nodes[zzB].links[conn]
+		sw := s.nodes[zzB].sw
 		s.mu.Unlock()
-		go zl.link.Stop()
+		// what peer.Disconnect does: take the link out of the switch's
+		// index, then stop it (on its own goroutine: the caller of this
+		// hook is a goroutine RemoveLink/Stop waits for)
+		go func() {
+			if sw != nil {
+				sw.RemoveLink(zl.link.ChanID())
+			}
+			zl.link.Stop()
+		}()
 	})
 }
 
